@@ -16,7 +16,7 @@ from adb_shell.transport import usb_transport as UT   # noqa: E402
 
 ID = "C20"
 LEVEL = "exploration"
-RULE = ("Fake python-libusb1 backend injected through sys.modules['usb1'] before adb_shell is imported. (a) Hypothesis-generated call sequences on UsbTransport (connect, bulk_read(n,t), bulk_write(data,t), "
+RULE = ("Fake python-libusb1 backend injected through sys.modules['usb1'] before adb_shell is imported. (a) Hypothesis-generated call sequences on a UsbTransport constructed directly or obtained through find_adb(serial= / port_path= / first) (connect, bulk_read(n,t), bulk_write(data,t), "
         "close, in any order; timeouts {None,0,0.0004,0.5,3} U floats; read sizes; backend short reads and short writes; a backend USBError of a drawn subclass injected at a drawn transfer index, and "
         "additionally enumerated at EVERY transfer index of a fixed sequence): claimInterface(interface number) on connect; every write goes to the OUT endpoint and every read to the IN endpoint with the "
         "data in order; a read never returns more than requested; timeout= is an int within 1 ms of 1000*t (of 1000*default for None); every USBError surfaces as UsbReadFailedError/UsbWriteFailedError, also when reading the serial number fails as well (device unplugged); "
@@ -49,7 +49,8 @@ def seq_cases(draw):
     return {"steps": steps, "default_timeout": draw(st.sampled_from([None, 2, 7.5])), "error_at": draw(st.one_of(st.none(), st.integers(0, 10))),
             "error": draw(st.integers(0, len(ERRS) - 1)), "kernel_driver": draw(st.sampled_from([False, True, "notfound"])),
             "close_error": draw(st.sampled_from([None, None, "release", "close"])),       # a USBError raised by the backend inside close()
-            "unplugged": draw(st.sampled_from([False, False, True]))}                       # reading the serial number fails too (device gone)
+            "unplugged": draw(st.sampled_from([False, False, True])),                       # reading the serial number fails too (device gone)
+            "via_find": draw(st.sampled_from([None, None, "serial", "port_path", "first"]))}     # obtain the transport through UsbTransport.find_adb(...) instead of constructing it
 
 
 def check_seq(case):
@@ -82,7 +83,16 @@ def check_seq(case):
     dev.serial_error = bool(case.get("unplugged"))
     info = {"classes": ["sequence"] + (["close-error:" + case["close_error"]] if case.get("close_error") else [])}
     setting = dev.settings[-1]
-    tr = UT.UsbTransport(dev, setting, usb_info="fake", default_transport_timeout_s=case["default_timeout"])
+    if case.get("via_find") and not case.get("unplugged"):
+        kw = {"default_transport_timeout_s": case["default_timeout"]}
+        if case["via_find"] == "serial":
+            kw["serial"] = dev.serial
+        elif case["via_find"] == "port_path":
+            kw["port_path"] = [dev.bus] + list(dev.ports)
+        tr = UT.UsbTransport.find_adb(**kw)
+        info["classes"].append("via-find_adb")
+    else:
+        tr = UT.UsbTransport(dev, setting, usb_info="fake", default_transport_timeout_s=case["default_timeout"])
     default = case["default_timeout"] if case["default_timeout"] is not None else UT.DEFAULT_TIMEOUT_S
     connected = False
     transfers = 0
